@@ -566,8 +566,296 @@ theorem spliceBody_exec (fuel shk stk : Nat) (b c : Int) (env : Env) (inp : List
     · have hht : h.truthy = true := by cases h <;> simp_all [Val.truthy]
       simp [spliceBody, Gen.Src.«___cds_wfcq_splice», block, exec, eval, evalArgs, execPrim, asLoc, bind, Except.bind,
         h1, h2, h3, hp, Env.setVar, setDst, hht, hh]
+      refine ⟨fun v hv => Or.inr hv, ?_⟩
       intro y hy
       simp [spliceTmp] at hy
       simp [hy]
+
+/-- "the labels of `evs` take `.s3 dst src bb` to `f dst src`" for every destination queue -/
+def SpliceRun (shk stk : Nat) (bb : Bool) (evs : List Event) (f : Nat → Nat → Pc) : Prop :=
+  ∀ dst src, L.addr shk = some src → L.tailOf stk = some src →
+    lrun (.s3 dst src bb) (evs.filterMap (absEv L)) = some (f dst src)
+
+def SpliceLoopPost (shk stk : Nat) (b : Int) (bb : Bool) (env : Env) (inp : List Val) (out : Out) (evs : List Event) :
+    Prop :=
+  (∀ v ∈ out.inp, v ∈ inp) ∧ (∀ m, m ≠ .glob "&attempt" → out.env.priv m = env.priv m) ∧
+  (∃ c', out.env.priv (.glob "&attempt") = some (.int c')) ∧
+  (((out.ctl = .blocked ∨ out.ctl = .fuel) ∧
+      (SpliceRun L shk stk bb evs (fun d s => .s3 d s bb) ∨ SpliceRun L shk stk bb evs (fun d s => .s4 d s bb))) ∨
+   (out.ctl = .ret (some (.int 2)) ∧ SpliceRun L shk stk bb evs fun _ _ => .done .srcEmpty) ∨
+   (out.ctl = .ret (some (.int (-1))) ∧ b = 0 ∧ SpliceRun L shk stk bb evs fun _ _ => .done .wouldblock) ∨
+   (∃ h, out.ctl = .normal ∧ out.env.vars "head" = some h ∧ h ≠ .int 0 ∧ h ∈ inp ∧
+      (∀ y, ¬ spliceTmp y → out.env.vars y = env.vars y) ∧
+      ∀ hx, dec L h = some hx → SpliceRun L shk stk bb evs fun d s => .s5 d s hx))
+
+theorem splice_loop (fuel shk stk : Nat) (b : Int) (bb : Bool) (hbb : bb = decide (b ≠ 0)) (n : Nat) :
+    ∀ (env : Env) (inp : List Val) (acc : List Event) (c : Int),
+      env.vars "src_q_head" = some (.ptr (.obj shk)) → env.vars "src_q_tail" = some (.ptr (.obj stk)) →
+      env.vars "blocking" = some (.int b) → env.priv (.glob "&attempt") = some (.int c) → (∀ v ∈ inp, Typed L v) →
+      ∃ out evs, iterate (fun e i => exec fuel spliceBody e i) n env inp acc = .ok out ∧ out.events = acc ++ evs ∧
+        SpliceLoopPost L shk stk b bb env inp out evs := by
+  have hd0 : dec L (.int 0) = some 0 := by simp [dec]
+  induction n with
+  | zero =>
+    intro env inp acc c h1 h2 h3 hp hwt
+    exact ⟨_, [], rfl, by simp, fun _ h => h, fun _ _ => rfl, ⟨c, hp⟩,
+      Or.inl ⟨Or.inr rfl, Or.inl fun d s _ _ => rfl⟩⟩
+  | succ n ih =>
+    intro env inp acc c h1 h2 h3 hp hwt
+    obtain ⟨o, ho, hpriv, ⟨c', hc'⟩, hsub, hcase⟩ := spliceBody_exec L fuel shk stk b c env inp h1 h2 h3 hp
+    simp only [iterate, ho, bind, Except.bind]
+    rcases hcase with ⟨rfl, hev, hctl⟩ | ⟨h, hhd, hh, hev, hctl, hhead, hvars⟩ | ⟨rfl, hev, hctl⟩ |
+      ⟨t, rest, evs, rfl, hev, hf, hb⟩
+    · simp only [hctl]
+      exact ⟨_, [], rfl, by simp [hev], hsub, hpriv, ⟨c', hc'⟩, Or.inl ⟨Or.inl rfl, Or.inl fun d s _ _ => rfl⟩⟩
+    · simp only [hctl]
+      have hmem : h ∈ inp := by cases inp <;> simp_all
+      refine ⟨_, o.events, rfl, rfl, hsub, hpriv, ⟨c', hc'⟩,
+        Or.inr (Or.inr (Or.inr ⟨h, rfl, hhead, hh, hmem, hvars, ?_⟩))⟩
+      intro hx hhx d s hs hts
+      have hx0 : hx ≠ 0 := fun e => hh (dec_eq_zero L (e ▸ hhx))
+      simp [hev, absEv, decNext, decTail, hd0, hhx, hs, List.filterMap_cons, lrun, lstep, hx0]
+    · simp only [hctl]
+      refine ⟨_, o.events, rfl, rfl, hsub, hpriv, ⟨c', hc'⟩, Or.inl ⟨Or.inl rfl, Or.inr ?_⟩⟩
+      intro d s hs hts
+      simp [hev, absEv, decNext, decTail, hd0, hs, List.filterMap_cons, lrun, lstep]
+    · obtain ⟨tx, htx⟩ := hwt t (by simp)
+      have hpre : ∀ (d s : Nat), L.addr shk = some s → L.tailOf stk = some s → ∀ rest' : List Event,
+          lrun (.s3 d s bb) ((.xchg (.field (.obj shk) "next") (.int 0) (.int 0) 5 :: .ld (.field (.obj stk) "p") t 1 ::
+            (evs ++ rest')).filterMap (absEv L)) =
+          lrun (if tx = s then .done .srcEmpty else if bb then .s3 d s bb else .done .wouldblock)
+            (rest'.filterMap (absEv L)) := by
+        intro d s hs hts rest'
+        simp [absEv, decNext, decTail, hd0, hs, hts, htx, List.filterMap_cons, List.filterMap_append, hf, lrun, lstep]
+      have hpre0 := fun d s hs hts => hpre d s hs hts []
+      simp only [List.append_nil, List.filterMap_nil, lrun] at hpre0
+      rcases hb with ⟨ht, hctl⟩ | ⟨ht, hb0, hctl⟩ | ⟨ht, hb0, hctl | ⟨hctl, hvars⟩⟩
+      · simp only [hctl]
+        refine ⟨_, o.events, rfl, rfl, hsub, hpriv, ⟨c', hc'⟩, Or.inr (Or.inl ⟨rfl, ?_⟩)⟩
+        intro d s hs hts
+        have : tx = s := by subst ht; simp [dec, hs] at htx; exact htx.symm
+        rw [hev, hpre0 d s hs hts]; simp [this]
+      · simp only [hctl]
+        refine ⟨_, o.events, rfl, rfl, hsub, hpriv, ⟨c', hc'⟩, Or.inr (Or.inr (Or.inl ⟨rfl, hb0, ?_⟩))⟩
+        intro d s hs hts
+        have : tx ≠ s := fun e => ht (dec_inj L (e ▸ htx) (by simp [dec, hs]))
+        rw [hev, hpre0 d s hs hts]; simp [this, hbb, hb0]
+      · simp only [hctl]
+        refine ⟨_, o.events, rfl, rfl, hsub, hpriv, ⟨c', hc'⟩, Or.inl ⟨Or.inl rfl, Or.inl ?_⟩⟩
+        intro d s hs hts
+        have : tx ≠ s := fun e => ht (dec_inj L (e ▸ htx) (by simp [dec, hs]))
+        rw [hev, hpre0 d s hs hts]; simp [this, hbb, hb0]
+      · simp only [hctl]
+        obtain ⟨out, evs', hit, hevs, hsub2, hpriv2, hc2, hpost⟩ := ih o.env o.inp (acc ++ o.events) c'
+          (by rw [hvars _ (by simp [spliceTmp]), h1]) (by rw [hvars _ (by simp [spliceTmp]), h2])
+          (by rw [hvars _ (by simp [spliceTmp]), h3]) hc' (fun v hv => hwt v (hsub v hv))
+        have hlift : ∀ f, SpliceRun L shk stk bb evs' f → SpliceRun L shk stk bb (o.events ++ evs') f := by
+          intro f hf' d s hs hts
+          have : tx ≠ s := fun e => ht (dec_inj L (e ▸ htx) (by simp [dec, hs]))
+          have hbt : bb = true := by simp [hbb, hb0]
+          rw [hev, List.cons_append, List.cons_append, hpre d s hs hts evs']
+          simp only [this, hbt, if_true, if_false]
+          simpa [hbt] using hf' d s hs hts
+        refine ⟨out, o.events ++ evs', hit, by simp [hevs], fun v hv => hsub v (hsub2 v hv), ?_, hc2, ?_⟩
+        · intro m hm; rw [hpriv2 m hm, hpriv m hm]
+        · rcases hpost with ⟨hc, hr | hr⟩ | ⟨hc, hr⟩ | ⟨hc, hb', hr⟩ | ⟨h, hc, hhead, hh, hmem, hv2, hr⟩
+          · exact Or.inl ⟨hc, Or.inl (hlift _ hr)⟩
+          · exact Or.inl ⟨hc, Or.inr (hlift _ hr)⟩
+          · exact Or.inr (Or.inl ⟨hc, hlift _ hr⟩)
+          · exact Or.inr (Or.inr (Or.inl ⟨hc, hb', hlift _ hr⟩))
+          · exact Or.inr (Or.inr (Or.inr ⟨h, hc, hhead, hh, hsub h hmem,
+              fun y hy => by rw [hv2 y hy, hvars y hy], fun hx hhx => hlift _ (hr hx hhx)⟩))
+
+/-- the part of the generated splice before the final `___cds_wfcq_append` call (first 10 statements) -/
+def splicePre : Stmt := initSeq 10 Gen.Src.«___cds_wfcq_splice»
+
+/-- … and of that, the part from the loop on: loop, legacy mb, `xchg` of the source tail, `tail = …` -/
+def spliceAfter : Stmt := dropSeq 6 splicePre
+
+/-- pcs at which a splice can be cut before its append -/
+def SpliceMid (dst src : Nat) (bb : Bool) (p : Pc) : Prop :=
+  p = .e1 (.splice dst bb) src ∨ p = .e2 (.splice dst bb) src ∨ p = .s3 dst src bb ∨ p = .s4 dst src bb ∨
+    ∃ h, p = .s5 dst src h
+
+/-- result of the part of splice before the append, run from pc `p0` -/
+def SplicePreRes (dhk dtk : Nat) (b : Int) (bb : Bool) (dst src : Nat) (out : Out) (p' : Pc) : Prop :=
+  ((out.ctl = .blocked ∨ out.ctl = .fuel) ∧ SpliceMid dst src bb p') ∨
+  (out.ctl = .ret (some (.int 2)) ∧ p' = .done .srcEmpty) ∨
+  (out.ctl = .ret (some (.int (-1))) ∧ b = 0 ∧ p' = .done .wouldblock) ∨
+  (∃ h tl hx tlx, out.ctl = .normal ∧ out.env.vars "head" = some h ∧ out.env.vars "tail" = some tl ∧
+    dec L h = some hx ∧ dec L tl = some tlx ∧ out.env.vars "dest_q_head" = some (.ptr (.obj dhk)) ∧
+    out.env.vars "dest_q_tail" = some (.ptr (.obj dtk)) ∧ p' = .s6 dst src hx tlx)
+
+theorem spliceAfter_run {fuel : Nat} {env : Env} {inp : List Val} {r : Except String Out}
+    (hE0 : exec fuel spliceAfter env inp = r) (dhk dtk shk stk src : Nat) (b mbv c : Int)
+    (h1 : env.vars "src_q_head" = some (.ptr (.obj shk))) (h2 : env.vars "src_q_tail" = some (.ptr (.obj stk)))
+    (h3 : env.vars "blocking" = some (.int b)) (h4 : env.vars "dest_q_head" = some (.ptr (.obj dhk)))
+    (h5 : env.vars "dest_q_tail" = some (.ptr (.obj dtk)))
+    (hp : env.priv (.glob "&attempt") = some (.int c))
+    (hcfg : env.priv (.glob "CONFIG_RCU_EMIT_LEGACY_MB") = some (.int mbv))
+    (hs : L.addr shk = some src) (hts : L.tailOf stk = some src) (hwt : ∀ v ∈ inp, Typed L v) :
+    ∃ out, r = .ok out ∧ (∀ v ∈ out.inp, v ∈ inp) ∧
+      ∀ dst, ∃ p', lrun (.s3 dst src (decide (b ≠ 0))) (out.events.filterMap (absEv L)) = some p' ∧
+        SplicePreRes L dhk dtk b (decide (b ≠ 0)) dst src out p' := by
+  subst hE0
+  generalize hbb : decide (b ≠ 0) = bb
+  rw [show spliceAfter = Stmt.seq (.loop spliceBody) (.seq _ (.seq _ (.seq _ .skip))) from rfl]
+  simp only [exec, bind, Except.bind]
+  obtain ⟨out, evs, hit, hevs, hsub, hpriv, hc2, hpost⟩ :=
+    splice_loop L fuel shk stk b bb hbb.symm fuel env inp [] c h1 h2 h3 hp hwt
+  simp only [hit, List.nil_append] at hevs ⊢
+  rcases hpost with ⟨hc, hr | hr⟩ | ⟨hc, hr⟩ | ⟨hc, hb', hr⟩ | ⟨h, hc, hhead, hh, hmem, hvars, hr⟩
+  · have hc' := hc
+    rcases hc with hc | hc <;> simp only [hc] <;>
+      exact ⟨_, rfl, hsub, fun dst => ⟨_, by rw [hevs]; exact hr dst src hs hts,
+        Or.inl ⟨hc', Or.inr (Or.inr (Or.inl rfl))⟩⟩⟩
+  · have hc' := hc
+    rcases hc with hc | hc <;> simp only [hc] <;>
+      exact ⟨_, rfl, hsub, fun dst => ⟨_, by rw [hevs]; exact hr dst src hs hts,
+        Or.inl ⟨hc', Or.inr (Or.inr (Or.inr (Or.inl rfl)))⟩⟩⟩
+  · simp only [hc]
+    exact ⟨_, rfl, hsub, fun dst => ⟨_, by rw [hevs]; exact hr dst src hs hts, Or.inr (Or.inl ⟨hc, rfl⟩)⟩⟩
+  · simp only [hc]
+    exact ⟨_, rfl, hsub, fun dst => ⟨_, by rw [hevs]; exact hr dst src hs hts, Or.inr (Or.inr (Or.inl ⟨hc, hb', rfl⟩))⟩⟩
+  · obtain ⟨hx, hhx⟩ := hwt h hmem
+    have hx0 : hx ≠ 0 := fun e => hh (dec_eq_zero L (e ▸ hhx))
+    have hv1 : out.env.vars "src_q_head" = some (.ptr (.obj shk)) := by rw [hvars _ (by simp [spliceTmp]), h1]
+    have hv2 : out.env.vars "src_q_tail" = some (.ptr (.obj stk)) := by rw [hvars _ (by simp [spliceTmp]), h2]
+    have hv4 : out.env.vars "dest_q_head" = some (.ptr (.obj dhk)) := by rw [hvars _ (by simp [spliceTmp]), h4]
+    have hv5 : out.env.vars "dest_q_tail" = some (.ptr (.obj dtk)) := by rw [hvars _ (by simp [spliceTmp]), h5]
+    have hcfg2 : out.env.priv (.glob "CONFIG_RCU_EMIT_LEGACY_MB") = some (.int mbv) := by
+      rw [hpriv _ (by simp)]; exact hcfg
+    have hr' := fun dst => hr hx hhx dst src hs hts
+    rw [← hevs] at hr'
+    rcases hinp : out.inp with _ | ⟨tl, rest⟩
+    · by_cases hmb : mbv = 0 <;>
+      · simp [hc, exec, eval, evalArgs, execPrim, asLoc, bind, Except.bind, hcfg2, hv1, hv2, Val.truthy, hmb, hinp]
+        intro dst
+        refine ⟨_, ?_, Or.inl ⟨Or.inl rfl, Or.inr (Or.inr (Or.inr (Or.inr ⟨hx, rfl⟩)))⟩⟩
+        simp [lrun_append, hr' dst, absEv, List.filterMap_cons, lrun]
+    · obtain ⟨tlx, htlx⟩ := hwt tl (hsub tl (by simp [hinp]))
+      by_cases hmb : mbv = 0 <;>
+      · simp [hc, exec, eval, evalArgs, execPrim, asLoc, bind, Except.bind, hcfg2, hv1, hv2, Val.truthy, hmb, hinp,
+          Env.setVar, setDst]
+        refine ⟨fun v hv => hsub v (by simp [hinp, hv]), fun dst => ⟨.s6 dst src hx tlx, ?_,
+          Or.inr (Or.inr (Or.inr ⟨h, tl, hx, tlx, rfl, by simp [hhead], by simp, hhx, htlx, by simp [hv4], by simp [hv5], rfl⟩))⟩⟩
+        have hds : dec L (.ptr (.obj shk)) = some src := by simp [dec, hs]
+        simp [lrun_append, hr' dst, absEv, decNext, decTail, hts, hds, htlx, List.filterMap_cons, lrun, lstep]
+
+theorem splicePre_run (fuel : Nat) (env : Env) (dhk dtk shk stk src : Nat) (b mbv : Int) (inp : List Val)
+    (h1 : env.vars "u_dest_q_head" = some (.ptr (.obj dhk))) (h2 : env.vars "dest_q_tail" = some (.ptr (.obj dtk)))
+    (h3 : env.vars "u_src_q_head" = some (.ptr (.obj shk))) (h4 : env.vars "src_q_tail" = some (.ptr (.obj stk)))
+    (h5 : env.vars "blocking" = some (.int b))
+    (hcfg : env.priv (.glob "CONFIG_RCU_EMIT_LEGACY_MB") = some (.int mbv))
+    (hs : L.addr shk = some src) (hts : L.tailOf stk = some src) (hwt : ∀ v ∈ inp, Typed L v) :
+    ∃ out, exec fuel splicePre env inp = .ok out ∧ (∀ v ∈ out.inp, v ∈ inp) ∧
+      ∀ dst, ∃ p', lrun (.e1 (.splice dst (decide (b ≠ 0))) src) (out.events.filterMap (absEv L)) = some p' ∧
+        SplicePreRes L dhk dtk b (decide (b ≠ 0)) dst src out p' := by
+  generalize hbb : decide (b ≠ 0) = bb
+  have hdh : dec L (.ptr (.obj shk)) = some src := by simp [dec, hs]
+  have hd0 : dec L (.int 0) = some 0 := by simp [dec]
+  rw [show splicePre = Stmt.seq _ (.seq _ (.seq _ (.seq _ (.seq _ (.seq _ spliceAfter))))) from rfl]
+  simp [block, exec, eval, evalArgs, bindParams, asLoc, bind, Except.bind, Env.setVar, Env.setPriv, setDst, Val.truthy,
+      evalBin, evalUn, boolV, h1, h2, h3, h4, h5]
+  generalize hE : exec fuel Gen.Src.«_cds_wfcq_empty» _ _ = r
+  obtain ⟨vars, rfl⟩ := empty_exec hE shk stk (by simp) (by simp)
+  clear hE
+  rcases inp with _ | ⟨v1, rest⟩
+  · simp [emptySpec, lrun, SplicePreRes, SpliceMid]
+  · obtain ⟨x1, hx1⟩ := hwt v1 (by simp)
+    by_cases hv1 : v1 = .int 0
+    · subst hv1
+      rcases rest with _ | ⟨v2, rest'⟩
+      · simp [emptySpec, lrun, lstep, SplicePreRes, SpliceMid, absEv, decNext, decTail, hd0, hs, List.filterMap_cons]
+      · obtain ⟨x2, hx2⟩ := hwt v2 (by simp)
+        by_cases hv2 : v2 = .ptr (.obj shk)
+        · subst hv2
+          simp [emptySpec, lrun, lstep, SplicePreRes, SpliceMid, absEv, decNext, decTail, hd0, hdh, hs, hts,
+            List.filterMap_cons, emptyRes]
+          exact fun v hv => Or.inr (Or.inr hv)
+        · have hx2q : x2 ≠ src := fun e => hv2 (dec_inj L (e ▸ hx2) hdh)
+          simp [emptySpec, hv2]
+          generalize hEo : exec fuel spliceAfter _ _ = r
+          obtain ⟨o, rfl, hsub, himp⟩ := spliceAfter_run L hEo dhk dtk shk stk src b mbv 0 (by simp) (by simp [h4])
+            (by simp [h5]) (by simp) (by simp [h2]) (by simp) (by simp [hcfg]) hs hts (fun w hw => hwt w (by simp [hw]))
+          simp only []
+          refine ⟨_, rfl, fun v hv => by simp [hsub v hv], fun dst => ?_⟩
+          obtain ⟨p', hrun, hres⟩ := himp dst
+          rw [hbb] at hrun hres
+          refine ⟨p', ?_, hres⟩
+          simp [absEv, decNext, decTail, hd0, hs, hts, hx2, List.filterMap_cons, lrun, lstep, hx2q, nonEmptyPc, hrun]
+    · have hx10 : x1 ≠ 0 := fun e => hv1 (dec_eq_zero L (e ▸ hx1))
+      simp [emptySpec, hv1]
+      generalize hEo : exec fuel spliceAfter _ _ = r
+      obtain ⟨o, rfl, hsub, himp⟩ := spliceAfter_run L hEo dhk dtk shk stk src b mbv 0 (by simp) (by simp [h4])
+        (by simp [h5]) (by simp) (by simp [h2]) (by simp) (by simp [hcfg]) hs hts (fun w hw => hwt w (by simp [hw]))
+      simp only []
+      refine ⟨_, rfl, fun v hv => by simp [hsub v hv], fun dst => ?_⟩
+      obtain ⟨p', hrun, hres⟩ := himp dst
+      rw [hbb] at hrun hres
+      refine ⟨p', ?_, hres⟩
+      simp [absEv, decNext, decTail, hs, hts, hx1, List.filterMap_cons, lrun, lstep, hx10, nonEmptyPc, hrun]
+
+/-- how `___cds_wfcq_splice` ends, against L2's result -/
+def SpliceRes (dst src : Nat) (b : Int) (bb : Bool) (out : Out) (p' : Pc) : Prop :=
+  ((out.ctl = .blocked ∨ out.ctl = .fuel) ∧ (SpliceMid dst src bb p' ∨ ∃ h tl, p' = .s6 dst src h tl)) ∨
+  (out.ctl = .ret (some (.int 2)) ∧ p' = .done .srcEmpty) ∨
+  (out.ctl = .ret (some (.int (-1))) ∧ b = 0 ∧ p' = .done .wouldblock) ∨
+  (∃ ne : Bool, out.ctl = .ret (some (.int (if ne then 1 else 0))) ∧ p' = .done (.dest ne))
+
+theorem splice_refines_env (fuel : Nat) (env : Env) (dhk dtk shk stk dst src : Nat) (b mbv : Int) (inp : List Val)
+    (h1 : env.vars "u_dest_q_head" = some (.ptr (.obj dhk))) (h2 : env.vars "dest_q_tail" = some (.ptr (.obj dtk)))
+    (h3 : env.vars "u_src_q_head" = some (.ptr (.obj shk))) (h4 : env.vars "src_q_tail" = some (.ptr (.obj stk)))
+    (h5 : env.vars "blocking" = some (.int b))
+    (hcfg : env.priv (.glob "CONFIG_RCU_EMIT_LEGACY_MB") = some (.int mbv))
+    (hd : L.addr dhk = some dst) (htd : L.tailOf dtk = some dst)
+    (hs : L.addr shk = some src) (hts : L.tailOf stk = some src) (hwt : ∀ v ∈ inp, Typed L v)
+    (hdst : ∀ o, exec fuel splicePre env inp = .ok o → o.ctl = .normal → ∀ v, o.inp.head? = some v → IsObj L v) :
+    ∃ out, exec fuel Gen.Src.«___cds_wfcq_splice» env inp = .ok out ∧
+      ∃ p', lrun (.e1 (.splice dst (decide (b ≠ 0))) src) (out.events.filterMap (absEv L)) = some p' ∧
+        SpliceRes dst src b (decide (b ≠ 0)) out p' := by
+  generalize hbb : decide (b ≠ 0) = bb
+  rw [exec_split fuel 10 Gen.Src.«___cds_wfcq_splice» env inp]
+  obtain ⟨o, ho, hsub, himp⟩ := splicePre_run L fuel env dhk dtk shk stk src b mbv inp h1 h2 h3 h4 h5 hcfg hs hts hwt
+  have hdst' := hdst o ho
+  obtain ⟨p', hrun, hres⟩ := himp dst
+  rw [hbb] at hrun hres
+  rw [show initSeq 10 Gen.Src.«___cds_wfcq_splice» = splicePre from rfl, ho]
+  rcases hres with ⟨hc, hm⟩ | ⟨hc, hp⟩ | ⟨hc, hb0, hp⟩ | ⟨h, tl, hx, tlx, hc, hhead, htail, hhx, htlx, hv4, hv5, hp⟩
+  · have : o.ctl ≠ .normal := by rcases hc with hc | hc <;> simp [hc]
+    simp only [seqRes, this, if_false]
+    exact ⟨_, rfl, p', hrun, Or.inl ⟨hc, Or.inl hm⟩⟩
+  · simp only [seqRes, hc, reduceCtorEq, if_false]
+    exact ⟨_, rfl, p', hrun, Or.inr (Or.inl ⟨hc, hp⟩)⟩
+  · simp only [seqRes, hc, reduceCtorEq, if_false]
+    exact ⟨_, rfl, p', hrun, Or.inr (Or.inr (Or.inl ⟨hc, hb0, hp⟩))⟩
+  · simp only [seqRes, hc, if_true]
+    rw [show dropSeq 10 Gen.Src.«___cds_wfcq_splice» = Stmt.seq _ _ from rfl]
+    simp only [exec, eval, evalArgs, bind, Except.bind, hhead, htail, hv4, hv5, List.length_cons, List.length_nil]
+    generalize hE : exec fuel Gen.Src.«___cds_wfcq_append» _ _ = r
+    rcases append_exec hE dhk dtk h tl (by simp [bindParams]) (by simp [bindParams]) (by simp [bindParams])
+      (by simp [bindParams]) with ⟨hnil, vars, rfl⟩ | ⟨v, rest, hinp, hh⟩
+    · subst hp
+      simp [block, exec, lrun_append, hrun]
+      exact Or.inl ⟨Or.inl rfl, Or.inr ⟨_, _, rfl⟩⟩
+    · obtain ⟨k, a, rfl, hk'⟩ := hdst' hc v (by simp [hinp])
+      obtain ⟨vars, rfl⟩ := hh _ rfl
+      subst hp
+      have hdk : dec L (.ptr (.obj k)) = some a := by simp [dec, hk']
+      have hb : decide (k = dhk) = decide (a = dst) := by
+        by_cases e : k = dhk
+        · subst e; simp_all
+        · have : a ≠ dst := fun e' => e (L.addr_inj _ _ _ hk' (e' ▸ hd))
+          simp [e, this]
+      by_cases e : a = dst
+      · have ek : k = dhk := L.addr_inj _ _ _ hk' (e ▸ hd)
+        subst ek
+        simp [block, exec, eval, setDst, Env.setVar, boolV, Val.truthy, bind, Except.bind]
+        refine ⟨.done (.dest false), ?_, Or.inr (Or.inr (Or.inr ⟨false, rfl, rfl⟩))⟩
+        simp [lrun_append, hrun, absEv, decNext, decTail, htd, hk', hhx, htlx, hdk, List.filterMap_cons, lrun, lstep, e]
+      · have ek : k ≠ dhk := fun e' => e (by subst e'; simpa [hd] using hk'.symm)
+        simp [block, exec, eval, setDst, Env.setVar, boolV, Val.truthy, bind, Except.bind, ek]
+        refine ⟨.done (.dest true), ?_, Or.inr (Or.inr (Or.inr ⟨true, rfl, rfl⟩))⟩
+        simp [lrun_append, hrun, absEv, decNext, decTail, htd, hk', hhx, htlx, hdk, List.filterMap_cons, lrun, lstep, e]
 
 end UrcuVerif.Src.Queue.WfcqR
